@@ -9,6 +9,15 @@ cut into reads), the initial queue content, the event list, the complete pattern
 pattern predicate. A run is recorded as one `Seg` per processed event; `Run.trace` is the flat
 interleaving of `write` and `deliver` events (`Seg.trace`: input write, echo deliveries, return
 write, response deliveries).
+
+* pacing: `input_after_expected_response`, `no_input_after_completion`, `input_after_own_response`
+  (under `WindowSound`), `writes_follow_script`, and the flat-trace form `every_write_licensed`;
+* echo: `hidden_not_awaited`, `plain_return_after_echo` (plain `SendInput`, eager or not);
+* result: `result_is_whole_dialogue`;
+* escalation: `secret_only_after_password_prompt`, `secret_after_escalate_prompt` (under
+  `WindowSound`), `secret_never_at_level_prompt`;
+* tie to the source: `escalate_source_shape`, `escalate_model_shape` (regenerated facts);
+* completeness for well-formed dialogues under every segmentation: `dialogue_exact`.
 -/
 namespace Scrapli.Inter.C12
 open Scrapli Scrapli.Chan Scrapli.Inter
@@ -174,6 +183,56 @@ theorem plain_return_after_echo (cfg : Cfg) (eager : Bool) (interim : List (Byte
     · rename_i h2
       exact ⟨_, rfl, rfl, rfl, Or.inr rfl, fun _ => hs, fun h => absurd h h2⟩
 
+/-! ## the same on the flat trace -/
+
+/-- FLAT-TRACE FORM. Every write of every `SendInteractive` trace is licensed by what precedes it
+in the trace: it is the very first event; or it is a return, directly preceded by its input and the
+deliveries `E` of the completed echo read (none when no echo read is due); or it is a further input,
+directly preceded by a return and deliveries `D` that matched the expected response / prompt / a
+complete pattern of some event while no complete pattern matched `D` as a whole. -/
+theorem every_write_licensed (cfg : Cfg) (complete : List (Bytes → Bool)) (dev : Dev σ)
+    (evs : List Event) (s : St σ) (pre post : List Ev) (x : Bytes) (r : Bool)
+    (h : (sendInteractive cfg complete dev evs s).trace = pre ++ Ev.write x r :: post) :
+    pre = [] ∨
+    (∃ pre' y ry E, pre = pre' ++ Ev.write y ry :: dels E ∧ x = cfg.ret ∧ r = false ∧
+      (E = [] ∨ EchoSeen cfg y E)) ∨
+    (∃ pre' D e, e ∈ evs ∧ pre = pre' ++ Ev.write cfg.ret false :: dels D ∧
+      RespMatched cfg complete e D.flatten ∧ ¬ Completed complete D.flatten) := by
+  simp only [Run.trace] at h
+  obtain ⟨lp, g, ls, p0, s0, e1, e2, e3, _⟩ := flatMap_split Seg.trace _ pre post _ h
+  rcases seg_trace_split g p0 s0 x r e2 with ⟨hp0, _, _⟩ | ⟨rt, hret, hp0, hx, hr, _⟩
+  · -- an input write
+    subst hp0
+    rcases List.eq_nil_or_concat lp with hnil | ⟨lp', gp, hlp⟩
+    · left; simp [e3, hnil]
+    · right; right
+      subst hlp
+      have hsegs : (sendInteractive cfg complete dev evs s).segs = lp' ++ gp :: g :: ls := by
+        simp [e1]
+      obtain ⟨e, _, he, _, _, _, _, hgret, hm, hn⟩ :=
+        input_after_expected_response cfg complete dev evs s lp' gp g ls hsegs
+      refine ⟨lp'.flatMap Seg.trace ++ Ev.write gp.input gp.hidden :: dels gp.echo, gp.resp, e,
+        List.mem_of_getElem? he, ?_, hm, hn⟩
+      rw [e3]
+      simp [Seg.trace, hgret]
+  · -- a return
+    right; left
+    obtain ⟨e, _, hi, _, hun, haw, hrc⟩ := hidden_not_awaited cfg complete dev evs s lp g ls e1
+    have hrt : rt = cfg.ret := by
+      rcases hrc with h0 | h0
+      · rw [h0] at hret; simp at hret
+      · rw [h0] at hret; simpa using hret.symm
+    refine ⟨lp.flatMap Seg.trace, g.input, g.hidden, g.echo, by rw [e3, hp0], by rw [hx, hrt], hr, ?_⟩
+    by_cases hh : e.hidden = true ∨ e.resp.isSome = false
+    · exact Or.inl (hun hh).1
+    · right
+      rw [hi]
+      apply haw
+      · simp only [not_or, Bool.not_eq_true, Bool.not_eq_false] at hh
+        exact hh
+      · rw [hret, hrt]
+
+
 /-! ## the result -/
 
 theorem loop_result (cfg : Cfg) (complete : List (Bytes → Bool)) (dev : Dev σ)
@@ -312,6 +371,31 @@ theorem secret_only_after_password_prompt (cfg : Cfg) (prev target : Level) (sec
     simp only [Run.trace, hsegs, List.flatMap_cons, List.flatMap_nil, List.append_nil] at hmem
     have := isRed_seg_visible g hh _ hmem
     simp [isRed] at this
+
+/-- With level patterns that are sound on the search window, what licensed the secret is the
+escalate prompt itself (the prompt pattern when the level defines none): it matched the search
+window of the bytes delivered since the escalate command's return. -/
+theorem secret_after_escalate_prompt (cfg : Cfg) (prev target : Level) (secret : Bytes)
+    (dev : Dev σ) (s : St σ) (pre post : List Ev) (x : Bytes)
+    (hw : WindowSound cfg (escalateComplete prev target))
+    (h : (escalate cfg prev target secret dev s).trace = pre ++ Ev.write x true :: post) :
+    ∃ E D, pre = Ev.write target.escalate false :: (dels E ++ Ev.write cfg.ret false :: dels D) ∧
+      (target.escalatePrompt.getD cfg.promptP) (window D.flatten cfg.depth) = true ∧
+      prev.pattern D.flatten = false ∧ target.pattern D.flatten = false := by
+  obtain ⟨_, _, _, E, D, hpre, hm, hp, ht⟩ :=
+    secret_only_after_password_prompt cfg prev target secret dev s pre post x h
+  refine ⟨E, D, hpre, ?_, hp, ht⟩
+  simp only [RespMatched, anyPred, escalateComplete, List.cons_append, List.nil_append,
+    List.any_cons, List.any_nil, Bool.or_false, Bool.or_eq_true] at hm
+  have hd : (escCfg cfg).depth = cfg.depth := rfl
+  have hpp : (escCfg cfg).promptP = cfg.promptP := rfl
+  rw [hd, hpp] at hm
+  rcases hm with hm | hm | hm
+  · have := hw prev.pattern (by simp [escalateComplete]) _ hm
+    rw [hp] at this; simp at this
+  · have := hw target.pattern (by simp [escalateComplete]) _ hm
+    rw [ht] at this; simp at this
+  · exact hm
 
 /-- If what the device shows after the escalate command is the target prompt or the previous
 prompt (it granted or refused the level without asking) the secret is never written: the trace has
